@@ -27,15 +27,23 @@
 //! Trusted base: the replica mirrors iour::Driver::poll/flush, poll::Driver::poll
 //! and Notify::wake_by_ref as of this tree. It would not notice a change of the
 //! loop itself (legs on the real runtime do); it does notice changes of the
-//! flag's operations/orderings (`wake` using swap, `reset` not clearing, ...).
+//! flag's operations/orderings (`reset` losing NOTIFIED or keeping AWAKE, `set`
+//! clearing NOTIFIED without acquiring what the waker published, ...).
 //!
 //! Runs under Miri (real threads, weak-memory emulation, many schedules per
-//! process) and natively as a stress.
+//! process) and natively as a stress (persistent threads, many quiescence
+//! rounds per program).
+//!
+//! `--flag model-*` swaps the real flag for a local copy with one deliberate
+//! change (calibration of this monitor only; violation signatures then carry
+//! `/CALIBRATION-...`; no leg uses it): `model-copy` (identical), `model-set-swap`
+//! (`set()` as `swap(AWAKE, AcqRel)`), `model-reset-keeps-awake`,
+//! `model-reset-forgets`.
 
 use std::{
     sync::{
         Arc, Barrier, Condvar, Mutex,
-        atomic::{AtomicU64, AtomicUsize, Ordering},
+        atomic::{AtomicU8, AtomicU64, AtomicUsize, Ordering},
     },
     thread,
 };
@@ -91,6 +99,89 @@ impl Mailbox {
     }
 }
 
+/// The flag under test. `Real` is compio's `AwakeFlag`; the `Model*` variants
+/// are local copies used ONLY to calibrate this monitor (`--flag ...`, never
+/// run by a leg, never evidence about compio): the same three operations with
+/// one deliberate change each.
+enum Flag {
+    Real(VerifAwakeFlag),
+    Model(AtomicU8, FlagKind),
+}
+
+#[derive(Clone, Copy, PartialEq, Eq, Debug)]
+enum FlagKind {
+    Real,
+    /// copy of the real flag (IDLE=0, NOTIFIED=1, AWAKE=2; same orderings)
+    Copy,
+    /// `set()` is `swap(AWAKE, AcqRel)` instead of `store(AWAKE, Release)`
+    SetSwap,
+    /// seeded breakage: `reset()` clears NOTIFIED only and leaves AWAKE set
+    ResetKeepsAwake,
+    /// seeded breakage: `reset()` reports "not notified" unconditionally
+    ResetForgets,
+}
+
+impl FlagKind {
+    fn parse(s: &str) -> Option<Self> {
+        Some(match s {
+            "real" => FlagKind::Real,
+            "model-copy" => FlagKind::Copy,
+            "model-set-swap" => FlagKind::SetSwap,
+            "model-reset-keeps-awake" => FlagKind::ResetKeepsAwake,
+            "model-reset-forgets" => FlagKind::ResetForgets,
+            _ => return None,
+        })
+    }
+
+    fn name(self) -> &'static str {
+        match self {
+            FlagKind::Real => "real",
+            FlagKind::Copy => "model-copy",
+            FlagKind::SetSwap => "model-set-swap",
+            FlagKind::ResetKeepsAwake => "model-reset-keeps-awake",
+            FlagKind::ResetForgets => "model-reset-forgets",
+        }
+    }
+}
+
+impl Flag {
+    fn new(kind: FlagKind) -> Self {
+        match kind {
+            FlagKind::Real => Flag::Real(VerifAwakeFlag::new()),
+            k => Flag::Model(AtomicU8::new(0), k),
+        }
+    }
+
+    fn set(&self) {
+        match self {
+            Flag::Real(f) => f.set(),
+            Flag::Model(a, FlagKind::SetSwap) => {
+                a.swap(2, Ordering::AcqRel);
+            }
+            Flag::Model(a, _) => a.store(2, Ordering::Release),
+        }
+    }
+
+    fn reset(&self) -> bool {
+        match self {
+            Flag::Real(f) => f.reset(),
+            Flag::Model(a, FlagKind::ResetForgets) => {
+                a.swap(0, Ordering::AcqRel);
+                false
+            }
+            Flag::Model(a, FlagKind::ResetKeepsAwake) => a.fetch_and(!1, Ordering::AcqRel) & 1 != 0,
+            Flag::Model(a, _) => a.swap(0, Ordering::AcqRel) & 1 != 0,
+        }
+    }
+
+    fn wake(&self) -> bool {
+        match self {
+            Flag::Real(f) => f.wake(),
+            Flag::Model(a, _) => a.fetch_or(1, Ordering::AcqRel) != 0,
+        }
+    }
+}
+
 #[derive(Clone, Debug)]
 struct Round {
     /// wakes issued by each waker thread in this round (>= 0)
@@ -114,6 +205,8 @@ struct Program {
     rounds: Vec<Round>,
     /// Driver yields between `set_awake` and the mailbox read?
     driver_yield: bool,
+    /// `Real` everywhere except monitor calibration runs
+    flag: FlagKind,
 }
 
 impl Program {
@@ -121,7 +214,7 @@ impl Program {
         json!({
             "mode": self.mode.name(), "mailbox": self.mailbox.name(), "wakers": self.wakers,
             "rounds": self.rounds.iter().take(upto).map(|r| json!({"wakes": r.wakes, "yields": r.yields})).collect::<Vec<_>>(),
-            "driver_yield": self.driver_yield,
+            "driver_yield": self.driver_yield, "flag": self.flag.name(),
         })
     }
 
@@ -139,6 +232,7 @@ impl Program {
                 .map(|r| Some(Round { wakes: us(&r["wakes"])?, yields: us(&r["yields"])? }))
                 .collect::<Option<Vec<_>>>()?,
             driver_yield: v["driver_yield"].as_bool().unwrap_or(false),
+            flag: v["flag"].as_str().and_then(FlagKind::parse).unwrap_or(FlagKind::Real),
         })
     }
 }
@@ -238,7 +332,7 @@ impl EventFd {
 }
 
 struct World {
-    flag: VerifAwakeFlag,
+    flag: Flag,
     ev: EventFd,
     posted: AtomicU64,
     /// Driver phase for the coverage signature only (Relaxed: adds no
@@ -325,7 +419,7 @@ fn waker_round(w: &World, p: &Program, idx: usize, r: &Round) {
 /// Runs the program; returns true if a violation was reported.
 fn evaluate(p: &Program, rep: &mut Report) -> bool {
     let w = Arc::new(World {
-        flag: VerifAwakeFlag::new(),
+        flag: Flag::new(p.flag),
         ev: EventFd::new(),
         posted: AtomicU64::new(0),
         phase: AtomicUsize::new(0),
@@ -419,7 +513,12 @@ fn evaluate(p: &Program, rep: &mut Report) -> bool {
         if seen < posted {
             bad = true;
             rep.violation(
-                &format!("C03/flag-replica/lost-wake/{}/mailbox-{}", p.mode.name(), p.mailbox.name()),
+                &format!(
+                    "C03/flag-replica/lost-wake/{}/mailbox-{}{}",
+                    p.mode.name(),
+                    p.mailbox.name(),
+                    if p.flag == FlagKind::Real { String::new() } else { format!("/CALIBRATION-{}", p.flag.name()) }
+                ),
                 &format!(
                     "model-assisted (replica of Driver::poll/flush + Notify::wake_by_ref around the real AwakeFlag): all {} \
                      waker threads returned from wake(), the driver replica is blocked in the kernel wait with eventfd counter 0, \
@@ -448,7 +547,7 @@ fn evaluate(p: &Program, rep: &mut Report) -> bool {
     bad
 }
 
-fn gen_program(rng: &mut Rng, modes: &[Mode], mailboxes: &[Mailbox], max_wakers: usize, max_wakes: usize, rounds: usize) -> Program {
+fn gen_program(rng: &mut Rng, modes: &[Mode], mailboxes: &[Mailbox], max_wakers: usize, max_wakes: usize, rounds: usize, flag: FlagKind) -> Program {
     let wakers = rng.range(1, max_wakers);
     Program {
         mode: *rng.pick(modes),
@@ -462,6 +561,7 @@ fn gen_program(rng: &mut Rng, modes: &[Mode], mailboxes: &[Mailbox], max_wakers:
             })
             .collect(),
         driver_yield: rng.chance(1, 3),
+        flag,
     }
 }
 
@@ -499,6 +599,10 @@ pub fn main(args: &Args) {
         Some(m) => m.split(',').map(|m| Mailbox::parse(m).expect("--mailbox sc|ra")).collect(),
         None => vec![Mailbox::Sc, Mailbox::Ra],
     };
+    let flag = FlagKind::parse(&args.str("flag", "real")).expect("--flag real|model-copy|model-set-swap|model-reset-keeps-awake|model-reset-forgets");
+    if flag != FlagKind::Real {
+        rep.note(format!("CALIBRATION RUN with --flag {}: not the real AwakeFlag, not evidence about compio", flag.name()));
+    }
     let max_wakers = args.usize("max-wakers", if cfg!(miri) { 3 } else { 6 });
     let max_wakes = args.usize("max-wakes", 4);
     let rounds = args.usize("rounds", if cfg!(miri) { 4 } else { 200 });
@@ -513,7 +617,7 @@ pub fn main(args: &Args) {
             break;
         }
         let mut rng = base.fork(i as u64);
-        let p = gen_program(&mut rng, &modes, &mailboxes, max_wakers, max_wakes, rounds);
+        let p = gen_program(&mut rng, &modes, &mailboxes, max_wakers, max_wakes, rounds, flag);
         evaluate(&p, &mut rep);
     }
     rep.finish();
